@@ -5,6 +5,8 @@ import (
 	"fmt"
 	"math"
 	"math/rand/v2"
+	"seehuhn.de/go/geom/matrix"
+	"seehuhn.de/go/postscript/cid"
 
 	"golang.org/x/image/font/sfnt"
 
@@ -697,7 +699,12 @@ var c04opNames = []string{"rmoveto", "hmoveto", "vmoveto", "rlineto", "hlineto",
 // c04check compiles the font and applies the oracles.  strictDomain=false
 // is used by the out-of-domain strata ("error or faithful").
 func c04check(k *mon.Case, glyphs []*cff.Glyph, infos []c04info, inDomain bool, tag string) {
-	font := c04font(glyphs)
+	c04checkFont(k, c04font(glyphs), glyphs, infos, inDomain, tag)
+}
+
+// c04checkFont is c04check for a font the caller has assembled around the
+// glyphs (CID-keyed fonts with several private dictionaries).
+func c04checkFont(k *mon.Case, font *cff.Font, glyphs []*cff.Glyph, infos []c04info, inDomain bool, tag string) {
 	buf := &bytes.Buffer{}
 	var err error
 	if k.Guard("cff.Font.Write", func() { err = font.Write(buf) }) {
@@ -726,13 +733,26 @@ func c04check(k *mon.Case, glyphs []*cff.Glyph, infos []c04info, inDomain bool, 
 		k.Fail("mismatch", tag+"glyph-count", "CharStrings INDEX has %d entries, font has %d glyphs", mf.NGlyphs, len(glyphs))
 		return
 	}
-	fd := mf.FDs[0]
-	env := &t2interp.Env{GSubrs: mf.GSubrs.Data, Subrs: fd.LocalSubrs(), DefaultWidthX: fd.DefaultWidthX, NominalWidthX: fd.NominalWidthX}
-	if fd.DefaultWidthX != math.Trunc(fd.DefaultWidthX) {
-		k.Class("width:fractional-default")
+	// one interpreter environment per font dictionary (a simple font has one)
+	envs := make([]*t2interp.Env, len(mf.FDs))
+	for i, fd := range mf.FDs {
+		envs[i] = &t2interp.Env{GSubrs: mf.GSubrs.Data, Subrs: fd.LocalSubrs(), DefaultWidthX: fd.DefaultWidthX, NominalWidthX: fd.NominalWidthX}
+		if fd.DefaultWidthX != math.Trunc(fd.DefaultWidthX) {
+			k.Class("width:fractional-default")
+		}
+		if fd.NominalWidthX != math.Trunc(fd.NominalWidthX) {
+			k.Class("width:fractional-nominal")
+		}
 	}
-	if fd.NominalWidthX != math.Trunc(fd.NominalWidthX) {
-		k.Class("width:fractional-nominal")
+	fdOf := func(gid int) int {
+		if mf.IsCID && gid < len(mf.FDSelect) && mf.FDSelect[gid] < len(mf.FDs) {
+			return mf.FDSelect[gid]
+		}
+		return 0
+	}
+	if len(mf.FDs) == 0 {
+		k.Fail("mismatch", tag+"no-font-dict", "the written font has no private dictionary")
+		return
 	}
 
 	lib, rerr, panicked := cffReadGuard(k, data)
@@ -757,6 +777,7 @@ func c04check(k *mon.Case, glyphs []*cff.Glyph, infos []c04info, inDomain bool, 
 	for gid, src := range glyphs {
 		code := mf.CharStrings.Data[gid]
 		k.DistinctBytes(code)
+		fd, env := mf.FDs[fdOf(gid)], envs[fdOf(gid)]
 		res := t2interp.Run(code, env)
 		results[gid] = res
 		k.Eval()
@@ -861,7 +882,7 @@ func c04check(k *mon.Case, glyphs []*cff.Glyph, infos []c04info, inDomain bool, 
 			if d := cffCompareFloats(src.VStem, lg.VStem, cffTol16); d != "" && inDomain {
 				k.Fail("mismatch", "roundtrip:vstem", "vstem after Write/Read: %s\n%s", d, where())
 			}
-			if lg.Name != src.Name {
+			if lg.Name != src.Name && !mf.IsCID {
 				k.Fail("mismatch", tag+"roundtrip:name", "glyph name %q came back as %q", src.Name, lg.Name)
 			}
 		}
@@ -1071,6 +1092,69 @@ func runC04(c *mon.Ctx) {
 		}
 	})
 	c.Require("recompile:edit-mode-0", "recompile:edit-mode-1", "recompile:edit-mode-2", "recompile:edit-mode-3")
+
+	// CID-keyed fonts with several private dictionaries: the default and
+	// nominal widths belong to the dictionary FDSelect assigns to the glyph
+	// index (not to the CID); the glyph indices and CIDs disagree, and the
+	// widths of the dictionaries are distributed differently
+	c.Stratum("cid-dicts", c.N(600, 30000), func(k *mon.Case) {
+		r := k.Rng
+		n := 2 + r.IntN(30)
+		nd := 2 + r.IntN(4)
+		cls := r.IntN(3)
+		glyphs := make([]*cff.Glyph, n)
+		infos := make([]c04info, n)
+		sel := make([]int, n)
+		// each dictionary has its own typical width
+		typical := make([]float64, nd)
+		for i := range typical {
+			typical[i] = float64(200 + 150*i + r.IntN(40))
+		}
+		for i := range glyphs {
+			glyphs[i], infos[i] = c04glyph(r, "", c04Families[r.IntN(len(c04Families)-2)], 0, cls, r.IntN(4) == 0)
+			sel[i] = r.IntN(nd)
+			if i == 0 {
+				sel[i] = 0
+			}
+			switch r.IntN(4) {
+			case 0:
+				glyphs[i].Width = float64(r.IntN(2000))
+			default:
+				glyphs[i].Width = typical[sel[i]]
+			}
+		}
+		// CIDs: a permutation of 1..n-1 that is not the identity, or scattered values
+		cids := make([]cid.CID, n)
+		perm := r.Perm(n - 1)
+		for i := 1; i < n; i++ {
+			cids[i] = cid.CID(1 + perm[i-1])
+			if k.Index%3 == 0 {
+				cids[i] = cid.CID(1 + perm[i-1]*7 + r.IntN(7))
+			}
+		}
+		priv := make([]*type1.PrivateDict, nd)
+		mats := make([]matrix.Matrix, nd)
+		for i := range priv {
+			priv[i] = &type1.PrivateDict{BlueScale: 0.039625, BlueShift: 7, BlueFuzz: 1, StdHW: float64(20 + i)}
+			mats[i] = matrix.Identity
+		}
+		font := &cff.Font{
+			FontInfo: &type1.FontInfo{FontName: "VerifC04CID", FontMatrix: [6]float64{0.001, 0, 0, 0.001, 0, 0}},
+			Outlines: &cff.Outlines{
+				Glyphs:       glyphs,
+				Private:      priv,
+				FDSelect:     func(g glyph.ID) int { return sel[g] },
+				ROS:          &cid.SystemInfo{Registry: "Adobe", Ordering: "Identity", Supplement: 0},
+				GIDToCID:     cids,
+				FontMatrices: mats,
+			},
+		}
+		c04checkFont(k, font, glyphs, infos, true, "cid:")
+		if !k.Failed() {
+			k.Class(fmt.Sprintf("cid-dicts:%d", min(nd, 4)))
+		}
+	})
+	c.Require("cid-dicts:2", "cid-dicts:4")
 
 	// enumerations: every h/v run length 1..60 in both phases; every hv/vh chain
 	// length 1..13 x start direction x trailing operand; in every integer class
